@@ -4,6 +4,33 @@
 // Skeleton approach: CBMC cannot copy slices of symbolic length, and symbolic execution explores every decoder arm
 // whose guard is not decided by constant propagation.  Therefore the ICMP type, every option TYPE octet and every
 // option LENGTH octet are concrete per instance (enumerated over boundary values); all other octets are symbolic.
+// ---- helpers shared with the C17 harnesses in radv_mod.rs (inherent impls are reachable from there although this
+// module is private) ------------------------------------------------------------------------------------------------
+// CBMC cannot decide the (niche-encoded) discriminant of an NDOptionValue that is read back from a malloc'd byte
+// array: it then explores every arm of the serialiser's `match opt` with garbage operands and never finishes.  Read
+// back from a TYPED static array the discriminant is a constant.  `verif_typed` is the stub for
+// `<NDOptions as Default>::default` in the C17 harnesses: an empty list with capacity 16 whose buffer is that static
+// array; `add_option` (Vec::push within capacity) and the serialiser's iteration are the real code.
+#[cfg(kani)]
+static mut VERIF_OPT_BUF: [super::NDOptionValue; 16] = [const { super::NDOptionValue::Mtu(0) }; 16];
+
+#[cfg(kani)]
+impl super::NDOptions {
+    pub fn verif_typed() -> Self {
+        super::NDOptions(unsafe { Vec::from_raw_parts(std::ptr::addr_of_mut!(VERIF_OPT_BUF) as *mut super::NDOptionValue, 0, 16) })
+    }
+}
+
+// The real wire encoder (icmppkt.rs:375-468) is private; `serialise` only dispatches to it.  (Going through
+// `serialise(&Icmp6::RtrAdvert(adv))` wraps the advertisement in a second niche-encoded enum, which CBMC cannot see
+// through either.)
+#[cfg(kani)]
+impl super::RtrAdvertisement {
+    pub fn verif_serialise(&self) -> Vec<u8> {
+        super::serialise_router_advertisement(self)
+    }
+}
+
 #[cfg(kani)]
 mod k {
     use super::super::*;
@@ -509,4 +536,34 @@ mod k {
         }
         std::mem::forget(r);
     }
+
+    // TMPEXP-BEGIN
+    /// VERIF: {"p":"C05","tier":"quick","fns":[],"bounds":"tmp","oracle":"tmp","covers":0,"unwind":20}
+    #[kani::proof]
+    #[kani::unwind(20)]
+    fn c05_icmp_tmp_portal_a() {
+        portal::<16>(RS, 8, 1, 6, b'/');
+    }
+
+    /// VERIF: {"p":"C05","tier":"quick","fns":[],"bounds":"tmp","oracle":"tmp","covers":0,"unwind":20}
+    #[kani::proof]
+    #[kani::unwind(20)]
+    fn c05_icmp_tmp_portal_b() {
+        portal::<16>(RS, 8, 1, 2, 0xff);
+    }
+
+    /// VERIF: {"p":"C05","tier":"quick","fns":[],"bounds":"tmp","oracle":"tmp","covers":0,"unwind":20}
+    #[kani::proof]
+    #[kani::unwind(20)]
+    fn c05_icmp_tmp_portal_c() {
+        portal::<16>(RS, 8, 1, 0, 0xff);
+    }
+
+    /// VERIF: {"p":"C05","tier":"quick","fns":[],"bounds":"tmp","oracle":"tmp","covers":0,"unwind":20}
+    #[kani::proof]
+    #[kani::unwind(20)]
+    fn c05_icmp_tmp_big() {
+        big::<2048>(RS, 8, 1);
+    }
+    // TMPEXP-END
 }
